@@ -373,16 +373,14 @@ NAME_OK = set("abcdefghijklmnopqrstuvwxyz0123456789")
 
 def lex_safe(line):
     """may the model's assumed lexing be compared with the real re-parse?  Not when a namespace URI contains
-    characters the serializer writes raw and the tokenizer treats specially, when a name is not a plain name, when
-    there is text outside the root, or when a CR occurs (the pinned tokenizer drops a CR that follows a character
-    reference — DESIGN 1.3 item 13, xmltok's subject)"""
+    characters the tokenizer treats specially in a way `lexEv` does not model (whitespace, `&`, `<`, quotes — since
+    the fix they are escaped, but named-reference decoding of e.g. `&amp;amp;` is the tokenizer's business), when a
+    name is not a plain name, or when there is text outside the root"""
     f = line.split("\t")
     if f[1] != "tree":
         return False
     tree = X.parse_dump(f[2])
     if any(not isinstance(n, X.Elem) and n[0] == "t" for n in tree):
-        return False
-    if any("\r" in s for s, _ in all_text(tree)):
         return False
     for e, _ in walk(tree):
         for p, ns, l in [(e.prefix, e.ns, e.local)] + [an for an, _ in e.attrs]:
